@@ -124,6 +124,10 @@ pub struct Snapshot {
     pub op: usize,
     pub site: &'static str,
     pub in_flight: Option<String>,
+    /// the in-flight file was fsynced earlier in this operation and has been written to since
+    /// (possibly under a new name after a rename): only this many leading bytes are what the
+    /// fsync made durable
+    pub post_sync_durable: Option<usize>,
     pub files: Files,
 }
 
@@ -143,6 +147,9 @@ struct Inner {
     last_in_flight: Option<PathBuf>,
     /// the file that was written but not fsynced yet (relative path)
     dirty: Option<String>,
+    /// the file that was dirty when the last `*.after_sync` site was passed, with the content it
+    /// had then: what a later point finds there beyond that content was never synced
+    synced: Option<(String, Blob)>,
     /// make the first rename of every op fail by removing the temp file right
     /// after its fsync (drives the retry loop of `IndexManager::save_index`)
     sabotage_site: Option<&'static str>,
@@ -175,6 +182,7 @@ impl Recorder {
                 last: Files::new(),
                 last_in_flight: None,
                 dirty: None,
+                synced: None,
                 sabotage_site: None,
                 sabotaged_in_op: None,
             }),
@@ -216,6 +224,7 @@ impl Recorder {
         g.op += 1;
         // a routine that never syncs is only exposed while it runs (stated limit of the model)
         g.dirty = None;
+        g.synced = None;
     }
 
     pub fn finish(&self) -> Recording {
@@ -247,16 +256,42 @@ impl Recorder {
             }
         }
         if site.ends_with("after_sync") {
-            g.dirty = None;
+            g.synced = g.dirty.take().and_then(|d| t.get(&d).cloned().map(|b| (d, b)));
         }
         if let Some(p) = label {
             g.last_in_flight = Some(p.to_path_buf());
         }
+        // Written after its fsync? Follow the synced file through a rename (the one file that
+        // appeared or changed in the step in which the synced name vanished), then compare.
+        let mut post_sync_durable = None;
+        let mut in_flight = g.dirty.clone().filter(|d| t.contains_key(d));
+        if in_flight.is_none() {
+            if let Some((p, sb)) = g.synced.clone() {
+                let mut at = Some(p.clone()).filter(|p| t.contains_key(p));
+                if at.is_none() && prev.contains_key(&p) {
+                    let changed: Vec<&String> = t.iter().filter(|(k, b)| prev.get(*k).map(|pb| pb.hash) != Some(b.hash)).map(|(k, _)| k).collect();
+                    if changed.len() == 1 {
+                        at = Some(changed[0].clone());
+                    }
+                }
+                match at {
+                    Some(k) => {
+                        let cur = &t[&k];
+                        if cur.hash != sb.hash {
+                            let common = cur.bytes.iter().zip(sb.bytes.iter()).take_while(|(a, b)| a == b).count();
+                            post_sync_durable = Some(common);
+                            in_flight = Some(k.clone());
+                        }
+                        g.synced = Some((k, sb));
+                    }
+                    None => g.synced = None,
+                }
+            }
+        }
         let seq = g.snaps.len();
         let op = g.op;
-        let in_flight = g.dirty.clone().filter(|d| t.contains_key(d));
         g.last = t.clone();
-        g.snaps.push(Snapshot { seq, op, site, in_flight, files: t });
+        g.snaps.push(Snapshot { seq, op, site, in_flight, post_sync_durable, files: t });
         if g.sabotage_site == Some(site) && g.sabotaged_in_op != Some(op) {
             g.sabotaged_in_op = Some(op);
             if let Some(p) = g.last_in_flight.clone() {
@@ -598,6 +633,10 @@ fn follow_files<R: Routine>(h: &R::Hist, files: &Files) -> Option<Result<Obs, St
 fn in_flight_of<'a, R: Routine>(snap: &'a Snapshot, before: &Files) -> Option<InFlight<'a>> {
     let path = snap.in_flight.as_deref()?;
     let cur = snap.files.get(path)?;
+    if let Some(n) = snap.post_sync_durable {
+        // written after the fsync: the synced bytes are durable, the rest may be anything
+        return Some(InFlight { path, cur, durable_len: n.min(cur.bytes.len()), stale: None });
+    }
     let durable_len = if R::appends(snap.site) {
         match before.get(path) {
             Some(old) if cur.bytes.len() >= old.bytes.len() && cur.bytes[..old.bytes.len()] == old.bytes[..] => old.bytes.len(),
